@@ -56,7 +56,7 @@ def run_bounded(pid, tier, seed, timeout):
 
 
 def write_replay(pid, name, payload):
-    d = os.path.join(VERIF, 'replays', pid)
+    d = os.path.join(VERIF, 'replays' if not os.environ.get('VT_NO_EVIDENCE') else 'replays/selftest', pid)
     os.makedirs(d, exist_ok=True)
     h = hashlib.sha1(json.dumps(payload, sort_keys=True, default=str).encode()).hexdigest()[:10]
     safe = re.sub(r'[^A-Za-z0-9_.-]+', '_', name)[:60]
@@ -79,7 +79,10 @@ def check(pid, tier='quick', seed=0):
     lines = []
     # ---- deductive part
     verdicts = list(cfg.deductive(tier))
-    broken = [v for v in verdicts if v.status == 'canary-verified']
+    # a canary that verifies marks the check broken -- unless the clause it shadows is itself refuted (then the code
+    # has changed into the canary's wrong variant: that is a violation, reported through the refuted clause)
+    status_of = {(v.fn, v.name): v.status for v in verdicts if not v.status.startswith('canary')}
+    broken = [v for v in verdicts if v.status == 'canary-verified' and status_of.get((v.fn, v.name)) != 'refuted']
     obligations = [v for v in verdicts if v.kind != 'canary' and not v.status.startswith('canary')]
     canaries = [v for v in verdicts if v.status.startswith('canary')]
     discharged = [v for v in obligations if v.status == 'discharged']
@@ -176,6 +179,8 @@ def _search_failing_input(pid, v):
 
 
 def _evidence(pid, tier, seed, cfg, verdicts, bounded, nviol, wall, note=''):
+    if os.environ.get('VT_NO_EVIDENCE'):
+        return
     obligations = [v for v in verdicts if not v.status.startswith('canary')]
     discharged = [v for v in obligations if v.status == 'discharged']
     backends = {}
